@@ -59,6 +59,7 @@ def readHunk (b n : Nat) : Prog (Option (List IndexEntry)) := do
     -- (invalid path, time out of range, unknown kind, symlink without target, address overflow)
     -- is treated like one that does not decode
     if es.all entryUsable then pure (some es) else .fail .invalidMetadata
+  | .val .empty => pure (some [])        -- zero-length leftover of an interrupted write: no entries
   | .val _ => .fail .json
   | _ => .fail (.transport .other)
 
@@ -98,18 +99,51 @@ def readHunks (b : Nat) : List Nat → Option Str → Option Str → Prog (List 
           let (more, last') ← readHunks b rest none (es.getLast?.map (fun (l : IndexEntry) => l.apath))
           pure (es ++ more, last')
 
-/-- `Band::check_index_hunks`: the hunks present must be numbered consecutively from zero, and
-a closed band must have as many as its tail says. -/
-def checkIndexHunks (b : Nat) : Prog Unit := do
-  let hunks ← hunksAvailable b
-  if hunks != List.range hunks.length then .fail .invalidMetadata
-  match ← perform (.read (.bandTail b)) with
-  | .err .notFound => pure ()
+/-- `IndexRead::hunk_lengths`: like `hunksAvailable`, with "is the file non-empty" for each hunk. -/
+def hunkLengths (b : Nat) : Prog (List (Nat × Bool)) := do
+  match ← perform (.listDir (.indexDir b)) with
+  | .listing xs =>
+    let dirs := sortNat <| xs.filterMap fun e =>
+      match e.key with
+      | .hunkDir _ d => if e.isDir then some d else none
+      | _ => none
+    let rec go : List Nat → List (Nat × Bool) → Prog (List (Nat × Bool))
+      | [], acc => pure acc
+      | d :: ds, acc => do
+        match ← perform (.listDir (.hunkDir b d)) with
+        | .listing ys =>
+          let hs := (ys.filterMap fun e =>
+            match e.key with
+            | .hunk _ n => if !e.isDir then some (n, e.nonEmpty) else none
+            | _ => none).mergeSort fun x y => x.1 ≤ y.1
+          go ds (acc ++ hs)
+        | .err e => .fail (.transport e)
+        | _ => .fail (.transport .other)
+    go dirs []
   | .err e => .fail (.transport e)
-  | .val (.tail (some n)) => if hunks.length = n then pure () else .fail .invalidMetadata
-  | .val (.tail none) => pure ()
-  | .val _ => .fail .json
   | _ => .fail (.transport .other)
+
+/-- Is there a zero-length hunk where an interrupted write cannot have left it?  Only the last
+hunk of a band without tail may be zero-length. -/
+def badEmptyHunk (closed : Bool) : List (Nat × Bool) → Bool
+  | [] => false
+  | [(_, nonEmpty)] => !nonEmpty && closed
+  | (_, nonEmpty) :: rest => !nonEmpty || badEmptyHunk closed rest
+
+/-- `Band::check_index_hunks`: the hunks present must be numbered consecutively from zero, a
+closed band must have as many as its tail says (if the tail can be read), and a zero-length hunk
+is acceptable only as the last hunk of a band without tail. -/
+def checkIndexHunks (b : Nat) : Prog Unit := do
+  let hunks ← hunkLengths b
+  if hunks.map (·.1) != List.range hunks.length then .fail .invalidMetadata
+  let (closed, expected) ← match ← perform (.read (.bandTail b)) with
+    | .err .notFound => pure (false, none)
+    | .val (.tail n) => pure (true, n)
+    | _ => pure (true, none)
+  match expected with
+  | some n => if hunks.length != n then .fail .invalidMetadata
+  | none => pure ()
+  if badEmptyHunk closed hunks then .fail .invalidMetadata
 
 /-- `State::BeforeBand` … until the band's hunks are exhausted: entries taken from band `b`
 (unfiltered) and the new `last_apath`. -/
